@@ -105,10 +105,9 @@ pub fn check(s: &'static dyn Proto, c: &Case, st: &mut Stats, known: &KnownFindi
                     };
                     let Some(mutated) = mutated else {
                         if *cd != Codec::Native {
-                            return Err(Fail::new(format!(
-                                "HARNESS-BUG: field {fname} of {} not found in its {cd:?} image",
-                                ty.name()
-                            )));
+                            // the shape of the serde images is not pinned by anything; a position
+                            // the harness cannot address is skipped, visibly
+                            st.label(format!("serde position not addressable: {}.{fname} in {cd:?}", ty.name()));
                         }
                         continue;
                     };
